@@ -37,13 +37,18 @@ using std::string;
 ///    The name of the attribute.
 /// @param[in]  attr_value
 ///    The value of the attribute.
+/// @return
+///    The unique id of the new attribute within this container, can be
+///    passed to removeAttributeById().
 /// @since  1.15.0, 19.06.2016
-void LogAttributesContainer::addAttribute( const string& attr_name,
-   const string& attr_value)
+LogAttributesContainer::attr_id_t
+   LogAttributesContainer::addAttribute( const string& attr_name,
+      const string& attr_value)
 {
 
-   mAttributes.push_back( attr_pair_t( attr_name, attr_value));
+   mAttributes.push_back( attr_pair_t( attr_name, attr_value, ++mLastId));
 
+   return mLastId;
 } // LogAttributesContainer::addAttribute
 
 
@@ -112,6 +117,28 @@ void LogAttributesContainer::removeAttribute( const string& attr_name)
    } // end for
 
 } // LogAttributesContainer::removeAttribute
+
+
+
+/// Removes exactly the attribute that got the given id when it was added,
+/// no matter if other attributes with the same name were added later.<br>
+/// Does nothing if this attribute does not exist anymore.
+///
+/// @param[in]  attr_id
+///    The id of the attribute as returned by addAttribute().
+void LogAttributesContainer::removeAttributeById( attr_id_t attr_id)
+{
+
+   for (auto it = mAttributes.begin(); it != mAttributes.end(); ++it)
+   {
+      if (std::get< 2>( *it) == attr_id)
+      {
+         mAttributes.erase( it);
+         break;   // for
+      } // end if
+   } // end for
+
+} // LogAttributesContainer::removeAttributeById
 
 
 
